@@ -64,6 +64,7 @@ PURE_METHODS = {
     "items", "keys", "values", "get", "group", "match", "sub", "index", "count", "copy", "strip",
 }
 MUTATING_METHODS = {
+    "appendleft", "popleft", "extendleft", "rotate",
     "append", "extend", "insert", "remove", "pop", "clear", "sort", "reverse", "update", "add", "discard",
     "setdefault", "popitem", "__setitem__", "__delitem__", "write", "flush",
 }
